@@ -146,10 +146,26 @@ class C16(Check):
                 "Pox.C16.eth_int_leniency_defect", "Pox.C16.cidr_leniency_defect",
                 "Pox.C16.ip6_parse_spec", "Pox.C16.ip6_unsupported_witnesses", "Pox.C16.ip4_parse_spec", "Pox.C16.classful_inference",
                 "Pox.C16.hash_consistent", "Pox.C16.eth_parse_spec", "Pox.C16.eth_seq", "Pox.C16.eth_seq_length_defect"]
-    anchors = [("pox/lib/addresses.py", 61, 88), ("pox/lib/addresses.py", 98, 144), ("pox/lib/addresses.py", 199, 254),
-               ("pox/lib/addresses.py", 267, 353), ("pox/lib/addresses.py", 357, 386), ("pox/lib/addresses.py", 408, 423),
-               ("pox/lib/addresses.py", 437, 544), ("pox/lib/addresses.py", 562, 567), ("pox/lib/addresses.py", 593, 595),
-               ("pox/lib/addresses.py", 602, 760), ("pox/lib/addresses.py", 781, 879), ("pox/lib/util.py", 210, 243)]
+    anchors = [("pox/lib/addresses.py", "_compare_helper"), ("pox/lib/addresses.py", "_AddrBase.__eq__"), ("pox/lib/addresses.py", "_AddrBase.__ne__"),
+               ("pox/lib/addresses.py", "_AddrBase.__lt__"), ("pox/lib/addresses.py", "_AddrBase.__gt__"), ("pox/lib/addresses.py", "_AddrBase.__le__"),
+               ("pox/lib/addresses.py", "_AddrBase.__ge__"), ("pox/lib/addresses.py", "_AddrBase.__delattr__"),
+               ("pox/lib/addresses.py", "EthAddr.__init__"), ("pox/lib/addresses.py", "EthAddr.toRaw"), ("pox/lib/addresses.py", "EthAddr.raw"),
+               ("pox/lib/addresses.py", "EthAddr.to_tuple"), ("pox/lib/addresses.py", "EthAddr.toStr"), ("pox/lib/addresses.py", "EthAddr.to_str"),
+               ("pox/lib/addresses.py", "EthAddr.__str__"), ("pox/lib/addresses.py", "EthAddr.__hash__"), ("pox/lib/addresses.py", "EthAddr.__repr__"),
+               ("pox/lib/addresses.py", "EthAddr.__setattr__"),
+               ("pox/lib/addresses.py", "IPAddr.__init__"), ("pox/lib/addresses.py", "IPAddr.toSigned"), ("pox/lib/addresses.py", "IPAddr.toRaw"),
+               ("pox/lib/addresses.py", "IPAddr.raw"), ("pox/lib/addresses.py", "IPAddr.toUnsigned"), ("pox/lib/addresses.py", "IPAddr.unsigned_h"),
+               ("pox/lib/addresses.py", "IPAddr.unsigned_n"), ("pox/lib/addresses.py", "IPAddr.toStr"), ("pox/lib/addresses.py", "IPAddr.inNetwork"),
+               ("pox/lib/addresses.py", "IPAddr.get_network"), ("pox/lib/addresses.py", "IPAddr.__str__"), ("pox/lib/addresses.py", "IPAddr.__hash__"),
+               ("pox/lib/addresses.py", "IPAddr.__repr__"), ("pox/lib/addresses.py", "IPAddr.__setattr__"),
+               ("pox/lib/addresses.py", "IPAddr6.from_raw"), ("pox/lib/addresses.py", "IPAddr6.from_num"), ("pox/lib/addresses.py", "IPAddr6.__init__"),
+               ("pox/lib/addresses.py", "IPAddr6.raw"), ("pox/lib/addresses.py", "IPAddr6.num"), ("pox/lib/addresses.py", "IPAddr6.is_ipv4_mapped"),
+               ("pox/lib/addresses.py", "IPAddr6.netmask_to_cidr"), ("pox/lib/addresses.py", "IPAddr6.cidr_to_netmask"),
+               ("pox/lib/addresses.py", "IPAddr6.parse_cidr"), ("pox/lib/addresses.py", "IPAddr6.in_network"), ("pox/lib/addresses.py", "IPAddr6.to_str"),
+               ("pox/lib/addresses.py", "IPAddr6.__str__"), ("pox/lib/addresses.py", "IPAddr6.__hash__"), ("pox/lib/addresses.py", "IPAddr6.__repr__"),
+               ("pox/lib/addresses.py", "IPAddr6.__setattr__"),
+               ("pox/lib/addresses.py", "netmask_to_cidr"), ("pox/lib/addresses.py", "cidr_to_netmask"), ("pox/lib/addresses.py", "parse_cidr"),
+               ("pox/lib/addresses.py", "infer_netmask"), ("pox/lib/util.py", "str_to_dpid"), ("pox/lib/util.py", "dpid_to_str")]
     trusted_base = ["model Model/Addr.lean hand-written from addresses.py / util.py (char-level text, Python int semantics); tied by this correspondence run",
                     "socket.inet_aton / inet_ntoa are libc: the model specifies canonical dotted quads only",
                     "little-endian host (struct 'i'/'I' native formats in IPAddr)",
@@ -186,9 +202,71 @@ class C16(Check):
         import pox.lib.addresses as A, pox.lib.util as U
         self.A, self.U = A, U
         self.stats = {}
+        self.variant = self.detect_variant()
+        if getattr(A, "_inet_aton", None) is not None and self.variant["ip4"]:
+            self.anchors = list(self.anchors) + [("pox/lib/addresses.py", "_inet_aton")]
+
+    # Which of the proposed repairs fixes/C16_{ip4_text,ip6_text,eth_text,cidr,eth_seq}.diff the tree under test has: read off the
+    # source (statement shapes after ast.unparse; an unknown shape is an error, never a guess).  The driver evaluates the matching model
+    # variant and the correspondence run validates the choice.
+    VARIANT_SHAPES = {
+        "ip4": (["IPAddr.__init__"],
+                ["self._value = struct.unpack('i', socket.inet_aton(addr.decode()))[0]", "self._value = struct.unpack('i', socket.inet_aton(addr))[0]"],
+                ["self._value = struct.unpack('i', _inet_aton(addr.decode()))[0]", "self._value = struct.unpack('i', _inet_aton(addr))[0]"]),
+        "ip6": (["IPAddr6.__init__"],
+                ["if addr.count('::') > 1:", "if len(segs) < 3 or len(segs) > 8:"],
+                ["(left, dc, right) = addr.partition('::')", "groups = [g for side in (left, right) if side for g in side.split(':')]",
+                 "if '::' in right or len(groups) > (7 if dc else 8) or len(groups) < (0 if dc else 8) or (not all((0 < len(g) <= 4 and "
+                 "all((c in _hex_digits for c in g)) for g in groups))):"]),
+        "eth": (["EthAddr.__init__"],
+                ["elif len(addr) == 12:", "addr = b''.join([b'%02x' % (int(x, 16),) for x in addr.split(b':')])"],
+                ["elif len(addr) == 12 and b':' not in addr:", "groups = addr.split(b':')",
+                 "if len(groups) != 6 or not all((0 < len(x) <= 2 and all((c in _eth_hex_digits for c in x)) for x in groups)):",
+                 "if not all((c in _eth_hex_digits for c in addr)):"]),
+        "cidr": (["parse_cidr", "IPAddr6.parse_cidr"],
+                 ["addr = addr.split('/', 2)", "try:", "except:"],
+                 ["addr = addr.split('/')", "if len(addr) > 2:", "if addr[1] and all((c in '0123456789' for c in addr[1])):"]),
+        "seq": (["EthAddr.__init__"],
+                ["elif isinstance(addr, (list, tuple, bytearray)):\n    self._value = bytes(addr)"],
+                ["elif isinstance(addr, (list, tuple, bytearray)):\n    if len(addr) != 6:\n        raise RuntimeError('Expected ethernet address to be 6 bytes')\n"
+                 "    self._value = bytes(addr)"])}
+    MODULE_CONSTS = {"ip4": ["_ip4_octets = frozenset((str(i) for i in range(256)))",
+                             "def _inet_aton(s):", "parts = s.split('.')", "if len(parts) != 4 or not all((p in _ip4_octets for p in parts)):",
+                             "return bytes((int(p) for p in parts))"],
+                     "ip6": ["_hex_digits = '0123456789abcdefABCDEF'"], "eth": ["_eth_hex_digits = b'0123456789abcdefABCDEF'"]}
+
+    def detect_variant(self):
+        import ast, os
+        path = os.path.join(common.REPO, "pox/lib/addresses.py")
+        tree = ast.parse(open(path).read())
+        module_text = ast.unparse(tree)
+        def fn_text(qual):
+            node = tree
+            for part in qual.split("."):
+                nxt = [ch for ch in node.body if isinstance(ch, (ast.FunctionDef, ast.ClassDef)) and ch.name == part]
+                if not nxt: raise RuntimeError("C16: %s not found in addresses.py" % qual)
+                node = nxt[0]
+            return ast.unparse(node)
+        def norm(t): return "\n".join(l.strip() for l in t.split("\n"))
+        out = {}
+        for fam, (quals, old, new) in self.VARIANT_SHAPES.items():
+            verdicts = []
+            for q in quals:
+                text = norm(fn_text(q))
+                has_old = all(norm(x) in text for x in old)
+                has_new = all(norm(x) in text for x in new)
+                if has_old == has_new:
+                    raise RuntimeError("C16: %s has a shape the model does not know (family %s: old=%s new=%s)" % (q, fam, has_old, has_new))
+                verdicts.append(has_new)
+            if len(set(verdicts)) != 1: raise RuntimeError("C16: family %s is repaired in only some of %s" % (fam, quals))
+            if verdicts[0]:
+                for c in self.MODULE_CONSTS.get(fam, []):
+                    if norm(c) not in norm(module_text): raise RuntimeError("C16: repair %s without its helper %r" % (fam, c))
+            out[fam] = verdicts[0]
+        return out
 
     def extra_evidence(self):
-        return {"op_histogram": dict(sorted(self.stats.items()))}
+        return {"op_histogram": dict(sorted(self.stats.items())), "code_variant": self.variant}
 
     # ------------------------------------------------------------------------- generators
     IP4_BOUNDARY = [0, 1, 2, 0x7f, 0x80, 0xff, 0x100, 0x7fffffff, 0x80000000, 0x80000001, 0xfffffffe, 0xffffffff,
@@ -706,6 +784,7 @@ class C16(Check):
                 r[k] = hx(v)
             elif k != "kind" or case["op"] == "eth_seq":
                 r[k] = v
+        r["var"] = [self.variant["ip6"], self.variant["eth"], self.variant["cidr"], self.variant["seq"]]
         return r
 
     def model_obs(self, case, resp):
